@@ -26,7 +26,7 @@ ASSUMPTIONS = [
 COMPONENTS = {'real': ['yldprolog.engine fact store, builtins asserta/assertz/retract/retractall, clear, query', 'compiled wrapper clauses (real compiler output)'],
               'stub': ['consumer / scheduler of the retract generators'],
               'oracle': ['ordered-list model (ypsim.models.FactStore) compared op by op, full read-back after every op']}
-REQUIRED_PROBES = ('op_badgoal', 'bound_argument_readbacks', 'op_assert', 'op_retract', 'op_retractall', 'op_query', 'op_clear', 'route_fact', 'route_query', 'route_wrap', 'route_inline',
+REQUIRED_PROBES = ('fault_retractall_overflow', 'fault_assert_overflow', 'deep_fact_stored', 'op_badgoal', 'bound_argument_readbacks', 'op_assert', 'op_retract', 'op_retractall', 'op_query', 'op_clear', 'route_fact', 'route_query', 'route_wrap', 'route_inline',
                    'form_bound', 'retract_abandoned', 'retract_suspended_across_ops', 'op_on_predicate_without_facts', 'arity0_ops')
 
 KEYS = [('p', 0), ('p', 1), ('p', 2), ('q', 1), ('r', 3), ('flag', 0), ('zz', 1), ('yy', 0)]
@@ -89,10 +89,19 @@ def gen(seed, tier):
         for _ in range(rng.randrange(8, 15)):
             row = [rng.choice(VALS[:small_vals + 2]) for _ in range(KEYS[ki][1])]
             ops.append(['assert', rng.random() < 0.2, 'fact', 'inline', ki, row])
+    depth_faults = rng.random() < 0.15
     for _ in range(rng.randrange(2, 31 * (2 if tier == 'thorough' else 1))):
         ki = rng.choice(keyset)
         ar = KEYS[ki][1]
         k = rng.random()
+        if depth_faults and k < 0.12:
+            # depth faults: a fact with a 150-element list; operations attempted with 60 frames of stack left
+            ka = ki if (ki < ASSERTABLE and ar >= 1) else 1
+            if rng.random() < 0.4:
+                ops.append(['deepfact', ka])
+            else:
+                ops.append(['faultop', rng.choice(('assert', 'retractall', 'retractall', 'query')), ka, gen_pattern(rng, KEYS[ka][1], rng.choice((0.0, 0.5)))])
+            continue
         if k < 0.38:
             ka = ki if ki < ASSERTABLE else rng.randrange(ASSERTABLE)
             route, form = route_form(('fact', 'query', 'wrap', 'inline'))
@@ -138,6 +147,10 @@ def show_op(op):
         return '%s[%s,%s] %s' % (op[0], op[1], op[2], show_goal(op[3], op[4]))
     if op[0] == 'query':
         return 'query[%s] %s' % (op[1], show_goal(op[2], op[3]))
+    if op[0] == 'deepfact':
+        return 'assertz %s(<100-element list>%s)' % (KEYS[op[1]][0], ',a' * (KEYS[op[1]][1] - 1))
+    if op[0] == 'faultop':
+        return 'FAULT %s %s with 60 frames of stack left (handled)' % (op[1], ('%s(<100-element list>...)' % KEYS[op[2]][0]) if op[1] == 'assert' else show_goal(op[2], op[3]))
     if op[0] == 'badgoal':
         return '%s[%s] of a malformed goal (%s)' % (op[1], op[2], op[3])
     return ' '.join(str(x) for x in op)
@@ -201,7 +214,7 @@ class Exec:
             for pos in range(ar):
                 seen = self.seen.setdefault((name, ar, pos), [])
                 for row in self.model.rows((name, ar)):
-                    if row[pos] not in seen and len(seen) < 6:
+                    if row[pos] not in seen and len(seen) < 6 and TM.size(row[pos]) < 50:
                         seen.append(row[pos])
                 for val in seen:
                     vs = [self.yp.variable() for _ in range(ar)]
@@ -407,6 +420,55 @@ def execute(plan):
                     log.violation('wrong-answers', {'op': show_op(op), 'engine': [[TM.show(x) for x in r] for r in got[:6]],
                                                     'model': [[TM.show(x) for x in r] for r in want[:6]]})
                     break
+            elif kind in ('deepfact', 'faultop'):
+                from ..machine import deep_model_term, LowRecursionLimit
+                ki = op[1] if kind == 'deepfact' else op[2]
+                key = KEYS[ki]
+                if key == busy:
+                    log.ev('noop-busy')
+                    continue
+                log.count('cases')
+                deep_row = [deep_model_term('list', 100)] + [('a', 'a')] * (key[1] - 1)
+                if kind == 'deepfact':
+                    yp.assert_fact(yp.atom(key[0]), [TM.build(yp, t, {}) for t in deep_row])
+                    model.add(key, deep_row, False)
+                    log.count('deep_fact_stored')
+                    log.ev('deepfact', ki)
+                else:
+                    what = op[1]
+                    pat = [TM.T(t) for t in op[3][:key[1]]]
+                    raised = False
+                    if what == 'assert':
+                        eargs = [TM.build(yp, t, {}) for t in deep_row]
+                        with LowRecursionLimit(60):
+                            try:
+                                yp.assert_fact(yp.atom(key[0]), eargs)
+                            except RecursionError:
+                                raised = True
+                        if not raised:
+                            model.add(key, deep_row, False)
+                    else:
+                        matches = ex.model_matches(key, pat) if not any(TM.size(r[0]) > 60 for r in model.rows(key) if r) else None
+                        vmap = {}
+                        pargs = [TM.build(yp, t, vmap) for t in pat]
+                        term = yp.functor(key[0], pargs) if key[1] else yp.atom(key[0])
+                        with LowRecursionLimit(60):
+                            try:
+                                g_ = yp.query('retractall', [term]) if what == 'retractall' else yp.query(key[0], pargs)
+                                n_ = 0
+                                for _ in g_:
+                                    n_ += 1
+                                    if n_ > 300:
+                                        break
+                            except RecursionError:
+                                raised = True
+                        g_ = None
+                        if what == 'retractall' and not raised:
+                            for rid, _ in (matches if matches is not None else ex.model_matches(key, pat)):
+                                model.remove_id(key, rid)
+                    log.count('fault_%s_%s' % (what, 'overflow' if raised else 'completed'))
+                    log.ev('faultop', what, ki, raised)
+                    log.key(('faultop', what, raised, key, tuple(TM.size(r[0]) > 60 for r in model.rows(key) if r)))
             elif kind == 'badgoal':
                 _, bk, route, what = op
                 if ex.task:
